@@ -13,7 +13,7 @@ from props.c02 import collect_simple, validate_samples
 
 LEVEL = 'model_checking'
 
-CLASSES = ['ws-before-name', 'ws-inside-name', 'ws-before-colon',
+CLASSES = ['ws-before-name', 'ws-inside-name', 'ws-before-colon', 'ws-only-line',
            'cl-empty', 'cl-plus', 'cl-minus', 'cl-nondigit', 'cl-mixed', 'cl-list', 'cl-inner-space', 'cl-overflow']
 KNOWN = {
     'ws-before-name': 'leading-ws-header-line',
@@ -34,6 +34,11 @@ def digit(ctx, lo=0x30, hi=0x39):
 def offending_line(ctx, cls):
     ws = ctx.fresh_bv('ws', 8)
     ctx.add(z3.Or(ws == 0x20, ws == 0x09))
+    if cls == 'ws-only-line':
+        # a line that begins with whitespace and has nothing else: still a (degenerate) folded line, not the end of the head
+        ws2 = ctx.fresh_bv('ws', 8)
+        ctx.add(z3.Or(ws2 == 0x20, ws2 == 0x09))
+        return [ws] if ctx.choose(2, 'two') == 0 else [ws, ws2]
     if cls.startswith('ws-'):
         which = ctx.choose(3, 'hname')
         if which == 0:
